@@ -346,6 +346,27 @@ class ChainNode(Entity):
         reply_future: SimFuture | None = metadata.get("reply_future")
 
         # CRAQ: if not tail and key is dirty, forward to tail
+        tail = self._tail_if_dirty(key)
+        if tail is not None:
+            yield 0.0, [self._forward_read(tail, key, reply_future)]
+            return None
+
+        # Serve locally
+        value = yield from self._store.get(key)
+
+        # CRAQ: a write applied here during the read latency is not committed yet
+        tail = self._tail_if_dirty(key)
+        if tail is not None:
+            yield 0.0, [self._forward_read(tail, key, reply_future)]
+            return None
+
+        self._reads_served += 1
+        if reply_future is not None:
+            reply_future.resolve({"status": "ok", "value": value})
+        return None
+
+    def _tail_if_dirty(self, key: str) -> ChainNode | None:
+        """CRAQ: the tail to forward a read of ``key`` to, or None if it can be served here."""
         if (
             self._craq_enabled
             and self._role != ChainNodeRole.TAIL
@@ -355,22 +376,17 @@ class ChainNode(Entity):
             # Find tail (last in chain)
             tail = self._find_tail()
             if tail is not None and tail is not self:
-                fwd_event = self._network.send(
-                    self,
-                    tail,
-                    "Read",
-                    payload={"key": key, "reply_future": reply_future},
-                )
-                yield 0.0, [fwd_event]
-                return None
-
-        # Serve locally
-        self._reads_served += 1
-        value = yield from self._store.get(key)
-
-        if reply_future is not None:
-            reply_future.resolve({"status": "ok", "value": value})
+                return tail
         return None
+
+    def _forward_read(self, tail: ChainNode, key: str, reply_future: SimFuture | None) -> Event:
+        """Build the Read event that hands a read over to the tail."""
+        return self._network.send(
+            self,
+            tail,
+            "Read",
+            payload={"key": key, "reply_future": reply_future},
+        )
 
     def _find_tail(self) -> ChainNode | None:
         """Walk the chain to find the tail node."""
